@@ -20,6 +20,7 @@ import (
 
 func init() {
 	register("conc", "C20: many goroutines use shared keys / points / scalars / tables read-only (built with -race); results vs sequential; frames", driveConc)
+	register("conchammer", "C20: every operation on its own, hammered by all goroutines at once (run with the race detector halting at the first report)", driveConcHammer)
 }
 
 type shared struct {
@@ -195,9 +196,12 @@ func safely(o concOp, sh *shared, arg int) (out string) {
 	return o.f(sh, arg)
 }
 
-func driveConc(c *ctx) {
+func driveConc(c *ctx)       { concRun(c, false) }
+func driveConcHammer(c *ctx) { concRun(c, true) }
+
+func concRun(c *ctx, hammer bool) {
 	// phase 0: first use of the precomputed tables from many goroutines at once, before anything else has touched them
-	{
+	if !hammer {
 		var wg sync.WaitGroup
 		outs := make([]string, 32)
 		for g := 0; g < 32; g++ {
@@ -259,6 +263,9 @@ func driveConc(c *ctx) {
 		out string
 	}
 	total := 0
+	if hammer {
+		rounds = 0
+	}
 	for round := 0; round < rounds; round++ {
 		runtime.GOMAXPROCS(procs[round%len(procs)])
 		results := make([][]res, G)
@@ -292,6 +299,9 @@ func driveConc(c *ctx) {
 	runtime.GOMAXPROCS(runtime.NumCPU())
 	iters := c.scale(12, 60)
 	for oi, o := range ops {
+		if !hammer {
+			break
+		}
 		results := make([][]res, G)
 		var wg sync.WaitGroup
 		start := make(chan struct{})
